@@ -43,10 +43,31 @@ import (
 //   - every service type must be unique
 func NetworkDocumentValidator() did.Validator {
 	return &did.MultiValidator{Validators: []did.Validator{
+		missingEntryValidator{},
 		did.W3CSpecValidator{},
 		verificationMethodValidator{},
 		basicServiceValidator{},
 	}}
+}
+
+// missingEntryValidator rejects documents with empty verification method or relationship entries (e.g. null or ""),
+// which the validators after it do not expect.
+type missingEntryValidator struct{}
+
+func (v missingEntryValidator) Validate(document did.Document) error {
+	for _, method := range document.VerificationMethod {
+		if method == nil {
+			return errors.New("invalid verificationMethod: empty entry")
+		}
+	}
+	for _, relationship := range []did.VerificationRelationships{document.Authentication, document.AssertionMethod, document.KeyAgreement, document.CapabilityInvocation, document.CapabilityDelegation} {
+		for _, rel := range relationship {
+			if rel.VerificationMethod == nil {
+				return errors.New("invalid verificationMethod: empty relationship entry")
+			}
+		}
+	}
+	return nil
 }
 
 // ManagedDocumentValidator extends NetworkDocumentValidator with extra safety checks to be performed on DID documents managed by this node before they are published on the network.
